@@ -29,6 +29,16 @@ pub struct OracleState {
     pub stats_model: BTreeMap<String, Vec<String>>,
     /// C19: record commands of the current server lifetime (request id, kind JSON)
     pub stats_pending: Vec<(i64, String)>,
+    /// C14: lints ignored through HarperIgnoreLint, tracked through the edits of their document
+    pub ignored_tracked: Vec<IgnoredTracked>,
+}
+
+pub struct IgnoredTracked {
+    pub uri: String,
+    pub id: crate::apisim::Identity,
+    /// where the lint is in the document's current text (None once its neighbourhood was edited)
+    pub span: Option<(usize, usize)>,
+    pub req_id: i64,
 }
 
 pub fn panic_property(job_prop: &str) -> String {
@@ -682,6 +692,7 @@ fn check_stats_files(sim: &mut Sim) {
 // ------------------------------------------------------------------ hooks called by the simulator
 
 pub fn on_spawn(sim: &mut Sim) {
+    sim.oracle_state.ignored_tracked.clear();
     sim.oracle_state.stats_pending.clear();
 }
 
@@ -693,7 +704,121 @@ pub fn after_kill(sim: &mut Sim) {
     }
 }
 
+fn c14_on_send(sim: &mut Sim, json: &Value) {
+    let method = json["method"].as_str().unwrap_or("");
+    let params = &json["params"];
+    match method {
+        "workspace/executeCommand" if params["command"].as_str() == Some("HarperIgnoreLint") => {
+            let (Some(uri), Some(lint)) = (params["arguments"][0].as_str(), serde_json::from_value::<harper_core::linting::Lint>(params["arguments"][1].clone()).ok()) else { return };
+            let Some(doc) = sim.client.doc(uri).cloned() else { return };
+            if !doc.open {
+                return;
+            }
+            let settings = sim.client.settings.clone();
+            let (user, file) = current_words(sim, &doc);
+            if let Reference::Lints(r) = reference::lints_for(&doc.text, &doc.lang, &settings, &user, &file) {
+                if lint.span.end <= r.source.len() && r.lints.iter().any(|l| *l == lint) {
+                    let id = crate::apisim::identity(&lint, &r.document);
+                    sim.oracle_state.ignored_tracked.push(IgnoredTracked { uri: uri.to_string(), id, span: Some((lint.span.start, lint.span.end)), req_id: json["id"].as_i64().unwrap_or(-1) });
+                    sim.res.count("c14_ignores", 1);
+                }
+            }
+        }
+        "textDocument/didChange" => {
+            // the model already holds the new text; the previous one is the one before it in the history
+            let uri = params["textDocument"]["uri"].as_str().unwrap_or("").to_string();
+            let Some(doc) = sim.client.doc(&uri) else { return };
+            let n = doc.history.len();
+            if n < 2 {
+                return;
+            }
+            let old: Vec<char> = doc.history[n - 2].chars().collect();
+            let new: Vec<char> = doc.history[n - 1].chars().collect();
+            let mut pre = 0;
+            while pre < old.len() && pre < new.len() && old[pre] == new[pre] {
+                pre += 1;
+            }
+            let mut suf = 0;
+            while suf < old.len() - pre && suf < new.len() - pre && old[old.len() - 1 - suf] == new[new.len() - 1 - suf] {
+                suf += 1;
+            }
+            let delta = new.len() as isize - old.len() as isize;
+            let mut survived = 0;
+            for t in sim.oracle_state.ignored_tracked.iter_mut().filter(|t| t.uri == uri) {
+                if let Some((s, e)) = t.span {
+                    let (ns, ne) = (s.saturating_sub(2), e + 2);
+                    if ne <= pre {
+                        survived += 1; // entirely inside the unchanged prefix
+                    } else if ns >= old.len() - suf {
+                        t.span = Some(((s as isize + delta) as usize, (e as isize + delta) as usize));
+                        survived += 1;
+                    } else {
+                        t.span = None;
+                    }
+                }
+            }
+            sim.res.count("ignored_lint_survived_edit", survived);
+            sim.res.count("c14_edits", 1);
+        }
+        "textDocument/didClose" | "textDocument/didOpen" => {
+            // the server keeps ignore lists per open document: they end with it
+            let uri = params["textDocument"]["uri"].as_str().unwrap_or("").to_string();
+            sim.oracle_state.ignored_tracked.retain(|t| t.uri != uri);
+        }
+        "workspace/didChangeWatchedFiles" | "shutdown" => sim.oracle_state.ignored_tracked.clear(),
+        _ => {}
+    }
+}
+
+fn check_ignored_hidden(sim: &mut Sim) {
+    let tracked: Vec<(String, crate::apisim::Identity, (usize, usize), i64)> =
+        sim.oracle_state.ignored_tracked.iter().filter_map(|t| t.span.map(|sp| (t.uri.clone(), t.id.clone(), sp, t.req_id))).collect();
+    for (uri, id, (s, e), req) in tracked {
+        if sim.client.pending.contains_key(&req) {
+            continue;
+        }
+        let Some(doc) = sim.client.doc(&uri).cloned() else { continue };
+        if !doc.open || !doc.known_to_server {
+            continue;
+        }
+        // a word of the lint's neighbourhood that was added to a dictionary meanwhile changes what
+        // those tokens *are* (known word vs unknown word) although the text is untouched: the
+        // property speaks about edits of the document, not about dictionary changes, so no demand
+        let lower = |w: &str| w.to_lowercase();
+        let mut near: Vec<String> = id.before.iter().chain(id.after.iter()).chain(std::iter::once(&id.flagged)).map(|w| lower(w)).collect();
+        near.extend(id.flagged.split(|c: char| !c.is_alphanumeric() && c != '\'' && c != '’').filter(|w| !w.is_empty()).map(lower));
+        if sim.client.added.iter().any(|a| a.req_id > req && near.contains(&lower(&a.word))) {
+            sim.res.count("c14_skipped_neighbour_word_added", 1);
+            continue;
+        }
+        let settings = sim.client.settings.clone();
+        let (user, file) = current_words(sim, &doc);
+        let Reference::Lints(r) = reference::lints_for(&doc.text, &doc.lang, &settings, &user, &file) else { continue };
+        let Some(l) = r.lints.iter().find(|l| l.span.start == s && l.span.end == e && crate::apisim::identity(l, &r.document) == id) else { continue };
+        sim.res.count("c14_checked_hidden", 1);
+        let (sl, sc) = reference::index_to_pos(&r.source, s);
+        let (el, ec) = reference::index_to_pos(&r.source, e);
+        let published = sim.client.last_publish(&uri).map(|p| p.diags.clone()).unwrap_or_default();
+        if published.iter().any(|d| (d.sl, d.sc, d.el, d.ec) == (sl, sc, el, ec) && d.message == l.message) {
+            sim.res.violate(Violation {
+                property: "C14".into(),
+                oracle: "C14.ignored_stays_hidden".into(),
+                class: "ignored_lint_reported".into(),
+                detail: format!(
+                    "{uri} ({}): the lint '{}' on '{}' at {s}..{e} was ignored with HarperIgnoreLint; neither it nor the tokens within two characters of it were edited and the document stayed open, yet the server publishes it again",
+                    doc.lang, l.message, id.flagged
+                ),
+                facts: json!({"through": "harper-ls", "words_added": sim.client.added.len(), "config_changes": sim.client.settings_history.len()}),
+            });
+            return;
+        }
+    }
+}
+
 pub fn on_send(sim: &mut Sim, json: &Value) {
+    if sim.job.prop == "C14" {
+        c14_on_send(sim, json);
+    }
     if json["method"].as_str() == Some("workspace/executeCommand") {
         let id = json["id"].as_i64().unwrap_or(-1);
         let args = json["params"]["arguments"].as_array().cloned().unwrap_or_default();
@@ -899,6 +1024,10 @@ pub fn at_quiescence(sim: &mut Sim, final_: bool) {
     }
     match sim.job.prop.as_str() {
         "C09" | "C08" => check_last_word(sim, final_),
+        "C14" => {
+            check_last_word(sim, final_);
+            check_ignored_hidden(sim);
+        }
         "C07" => {
             check_last_word(sim, final_);
             check_dict_files(sim, if final_ { "at the end" } else { "at a quiescent point" });
